@@ -536,11 +536,18 @@ def Item.isVariant (i : Item) : Bool :=
 def variantsWF (E : Edges) : Bool :=
   E.all fun e => (variantSet E e.1).all fun v => v.item.name.isSome && v.item.isVariant
 
-/-- ids are unique per crate (rustdoc's `index` is a map) and crate names are distinct -/
-def Crate.idsUnique (c : Crate) : Bool := (c.items.map (·.id)).eraseDups.length == c.items.length
+def nodupNat : List Nat → Bool
+  | [] => true
+  | a :: l => !l.contains a && nodupNat l
 
-def cratesWF (cs : List Crate) : Bool :=
-  cs.all Crate.idsUnique && (cs.map (·.name)).eraseDups.length == cs.length
+def nodupStr : List String → Bool
+  | [] => true
+  | a :: l => !l.contains a && nodupStr l
+
+/-- ids are unique per crate (rustdoc's `index` is a map) and crate names are distinct -/
+def Crate.idsUnique (c : Crate) : Bool := nodupNat (c.items.map (·.id))
+
+def cratesWF (cs : List Crate) : Bool := cs.all Crate.idsUnique && nodupStr (cs.map (·.name))
 
 /-! ## the whole run -/
 
